@@ -283,6 +283,13 @@ def module_tuple_types(tree):
     return out
 
 
+def decl_name(d):
+    """name of a parameter declarator, through reference / pointer declarators (`vector[int]& indptr`)"""
+    while not hasattr(d, 'name') and hasattr(d, 'base'):
+        d = d.base
+    return str(getattr(d, 'name', '') or '')
+
+
 class Lower:
     def __init__(self, spec, fnode, tuple_types, specs_by_name):
         self.spec = spec
@@ -348,7 +355,7 @@ class Lower:
         f = self.fnode
         args = f.args if isinstance(f, Nodes.DefNode) else f.declarator.args
         for a in args:
-            nm = str(a.declarator.name) if hasattr(a.declarator, 'name') else ''
+            nm = decl_name(a.declarator)
             if not nm:
                 continue
             self.note_type(nm, simple_type(a.base_type))
@@ -1662,8 +1669,7 @@ def translate(repo):
         fnodes[spec['name']] = f
         if f is not None:
             args = f.args if isinstance(f, Nodes.DefNode) else f.declarator.args
-            spec['_params'] = [str(a.declarator.name) for a in args
-                               if getattr(a.declarator, 'name', '') not in ('', 'self')]
+            spec['_params'] = [decl_name(a.declarator) for a in args if decl_name(a.declarator) not in ('', 'self')]
     for spec in SPECS:
         tree = trees.get(spec['file'])
         f = fnodes.get(spec['name'])
